@@ -275,9 +275,21 @@ def gen_ref_set(rng, allow_m1_wrapped=True, small=False):
     off = rng.choice((0, 0, 5, 100, 2 ** 31, 2 ** 40)) if rng.random() < 0.5 else rng.randint(0, 2 ** 45)
     for _ in range(rng.choice((0, 1, 1, 2, 3, 4)) if not small else rng.choice((0, 1, 2))):
         magic = rng.choice((0, 1))
-        kind = rng.choice(("plain", "plain", "gzip", "nested"))
+        kind = rng.choice(("plain", "plain", "gzip", "nested", "gzip", "empty_wrapper"))
         if small and kind == "nested":
             kind = "gzip"
+        if kind == "empty_wrapper":
+            # a wrapper whose compressed payload is an empty message set (everything in it was compacted away): it
+            # contributes no message and is not a truncation
+            magic_w = rng.choice((0, 1))
+            depth = rng.choice((1, 1, 2))
+            w_ = R.encode_wrapper([], off, magic=magic_w, timestamp=(0 if magic_w == 1 else None))
+            if depth == 2:
+                w_ = R.encode_wrapper([w_], off, magic=0)
+            entries.append(w_)
+            tags.add("wrapper_around_nothing")
+            off += 1
+            continue
         if kind == "plain":
             (m, a, k, v, ts), = gen_logical(rng, magic, 1, small)
             entries.append((off, R.encode_message(k, v, m, a, ts)))
@@ -306,7 +318,11 @@ def gen_ref_set(rng, allow_m1_wrapped=True, small=False):
             nmem = rng.choice((1, 1, 1, 2, 3))
             if nmem > 1:
                 tags.add("gzip_multi_member")
-            entries.append(R.encode_wrapper(inner, abs_offs[-1], magic=magic,
+            # a format-1 wrapper written on a LogAppendTime topic also carries the timestamp-type bit (0x08)
+            extra = 0x08 if (magic == 1 and rng.random() < 0.3) else 0
+            if extra:
+                tags.add("gzip_m1_log_append_time")
+            entries.append(R.encode_wrapper(inner, abs_offs[-1], magic=magic, extra_attributes=extra,
                                             timestamp=(msgs[-1][4] if magic == 1 else None), members=nmem,
                                             split_at=(sorted(rng.sample(range(1, 40), nmem - 1)) if nmem > 1 and
                                                       rng.random() < 0.5 else None)))
